@@ -9,7 +9,7 @@ from petl.compat import next, string_types, reduce, text_type
 
 from petl.errors import ArgumentError
 from petl.util.base import Table, iterpeek, rowgroupby
-from petl.util.base import values
+from petl.util.base import values, data
 from petl.util.counting import nrows
 from petl.transform.sorts import sort, mergesort
 from petl.transform.basics import cut
@@ -283,6 +283,8 @@ def itersimpleaggregate(table, key, aggregation, value, field):
         # special case counting
         if aggregation == len:
             yield nrows(table),
+        elif value is None:
+            yield aggregation(data(table)),
         else:
             yield aggregation(values(table, value)),
     else:
